@@ -128,6 +128,7 @@ PRELUDE = r'''// generated by harness/cpp/c17probe_gen.py -- do not edit
 #include <cstdint>
 #include <cstdio>
 #include <functional>
+#include <new>
 #include <type_traits>
 #include <utility>
 
@@ -278,6 +279,24 @@ void row(long long id, int kind, int w) {
   SsPart<T, N, SsLegal && Sets>::go();
   std::printf("\n");
 }
+// a stateful allocator that is not trivially relocatable (it points to itself), not trivially copyable, no declaration:
+// is it a part of the containers' trivially_relocatable conjunction?  (line "A ...", informational)
+template <class T> struct SelfAlloc {
+  using value_type = T; using pointer = T *; using const_pointer = const T *; using size_type = std::size_t;
+  using difference_type = std::ptrdiff_t;
+  template <class U> struct rebind { using other = SelfAlloc<U>; };
+  SelfAlloc() noexcept : self(this) {}
+  SelfAlloc(const SelfAlloc &) noexcept : self(this) {}
+  SelfAlloc &operator=(const SelfAlloc &) noexcept { return *this; }
+  T *allocate(std::size_t n) { return static_cast<T *>(::operator new(n * sizeof(T))); }
+  void deallocate(T *p, std::size_t) { ::operator delete(p); }
+  SelfAlloc *self;
+};
+inline void alloc_line() {
+  using A = SelfAlloc<int>;
+  std::printf("A %d %d %d %d %d\n", TR<A>(), TR<amc::vector<int, A> >(), TR<amc::SmallVector<int, 4, A> >(),
+              TR<amc::FlatSet<int, std::less<int>, A> >(), int(sizeof(amc::vector<int, A>)));
+}
 }  // namespace probe
 '''
 
@@ -295,6 +314,8 @@ def generate(rows, nshards):
     shards = []
     for sh in range(nshards):
         body = [row_call(i, rows[i]) for i in range(sh, len(rows), nshards)]
+        if sh == 0:
+            body.append("  probe::alloc_line();")
         shards.append(PRELUDE + "\nint main() {\n" + "\n".join(body) + "\n  return 0;\n}\n")
     return shards
 
@@ -316,6 +337,17 @@ def parse(text, rows):
             raise ValueError("probe line does not match its instance: %s" % line)
         out.append(d)
     return out
+
+
+ALLOC_FIELDS = ["alloc_tr", "vector_tr", "smallvector_tr", "flatset_tr", "sizeof_vector"]
+
+
+def parse_alloc(text):
+    """The informational "A" line: SelfAlloc<int> and the containers built on it."""
+    for line in text.split("\n"):
+        if line.startswith("A "):
+            return dict(zip(ALLOC_FIELDS, [int(x) for x in line[2:].split()]))
+    return None
 
 
 if __name__ == "__main__":
